@@ -392,11 +392,20 @@ Section MuxProofs.
     str_in (pe_backend p) (sv_backends sv) = true ->
     serve_nocache sv rq =
       match rewrite_path p (rq_path rq) with
-      | Some path' => Dispatched (pe_backend p) path'
+      | Some path' => if too_large sv p rq then Failed 413 else Dispatched (pe_backend p) path'
       | None => Panicked
       end.
   Proof.
     intros sv rq p H Hb. unfold Mux.serve_nocache. rewrite H. cbn [Mux.dispatch]. now rewrite Hb.
+  Qed.
+
+  (** the body limit: 413 iff the client sends more bytes than the effective limit (path's
+      clientMaxBodySize, else the server's, else 4 MiB; negative = unlimited) *)
+  Theorem too_large_iff : forall sv p rq,
+    too_large sv p rq = true <->
+    (0 <= body_limit sv p < rq_body rq)%Z.
+  Proof.
+    intros sv p rq. unfold too_large. rewrite andb_true_iff, Z.leb_le, Z.ltb_lt. tauto.
   Qed.
 
   Theorem unknown_backend_503 : forall sv rq p,
@@ -487,7 +496,7 @@ Section MuxProofs.
     apply andb_true_iff in Hx as [_ Hpm].
     unfold valid_path in Hv. apply andb_true_iff in Hv as [Hv _].
     unfold Mux.path_match in Hpm. unfold Mux.rewrite.
-    destruct (nonempty (pe_rewrite p)); cbn [negb]; [|discriminate].
+    destruct (nonempty (pe_rewrite p)); cbn [negb]; [|destruct (too_large sv p rq); discriminate].
     destruct (nonempty (pe_path p)) eqn:E1, (nonempty (pe_prefix p)) eqn:E2, (nonempty (pe_regexp p)) eqn:E3;
       cbn in *; try discriminate;
       repeat match goal with
@@ -517,14 +526,15 @@ Section MuxProofs.
 
   Theorem mapper_history_dispatch : forall sv pre m rq p h path',
     search_nocache sv rq = Route p -> alookup (pe_backend p) m = Some h ->
-    rewrite_path p (rq_path rq) = Some path' ->
+    rewrite_path p (rq_path rq) = Some path' -> too_large sv p rq = false ->
     last (serve_hist re_match re_replace ip_allow sv (pre ++ [(m, rq)])%list) (Panicked, None)
       = (Dispatched (pe_backend p) path', Some h).
   Proof.
-    intros sv pre m rq p h path' H Hm Hr. unfold serve_hist. rewrite map_app. cbn [map fst snd]. rewrite last_last.
+    intros sv pre m rq p h path' H Hm Hr Hb. unfold serve_hist. rewrite map_app. cbn [map fst snd]. rewrite last_last.
     unfold serve_mapped, Mux.serve_nocache.
     change (Mux.search_nocache re_match ip_allow (with_mapper sv m) rq) with (search_nocache sv rq).
     rewrite H. cbn [Mux.dispatch with_mapper sv_backends]. rewrite str_in_mapper, Hm, Hr.
+    change (too_large (with_mapper sv m) p rq) with (too_large sv p rq). rewrite Hb.
     cbn [handler_of]. now rewrite Hm.
   Qed.
 
@@ -532,11 +542,11 @@ Section MuxProofs.
       decoded path, headers and client address are answered alike (and share the cache key) *)
   Definition same_but_raw (a b : request) : Prop :=
     rq_host a = rq_host b /\ rq_method a = rq_method b /\ rq_path a = rq_path b /\
-    rq_headers a = rq_headers b /\ rq_ip a = rq_ip b.
+    rq_headers a = rq_headers b /\ rq_ip a = rq_ip b /\ rq_body a = rq_body b.
 
   Lemma paths_dec_raw : forall a b ps hm mm, same_but_raw a b -> paths_dec a ps hm mm = paths_dec b ps hm mm.
   Proof.
-    intros a b ps hm mm (H1 & H2 & H3 & H4 & H5). revert hm mm.
+    intros a b ps hm mm (H1 & H2 & H3 & H4 & H5 & H6). revert hm mm.
     induction ps as [|p ps IH]; intros hm mm; cbn [Mux.paths_dec]; [reflexivity|].
     unfold Mux.path_match, method_match, Mux.headers_match, Mux.cond_all, Mux.cond_any.
     rewrite H2, H3, H4, !IH. reflexivity.
@@ -547,7 +557,7 @@ Section MuxProofs.
     intros a b rs hm mm H. revert hm mm.
     induction rs as [|r rs IH]; intros hm mm; cbn [Mux.rules_dec]; [reflexivity|].
     rewrite (paths_dec_raw a b _ hm mm H), !IH.
-    destruct H as (H1 & H2 & H3 & H4 & H5).
+    destruct H as (H1 & H2 & H3 & H4 & H5 & H6).
     unfold Mux.host_match, Mux.allow_all. rewrite H1, H5.
     destruct (paths_dec b (ru_paths r) hm mm); [reflexivity|]. now rewrite IH.
   Qed.
@@ -559,13 +569,13 @@ Section MuxProofs.
     intros sv a b H. split.
     - unfold Mux.serve_nocache, Mux.search_nocache, Mux.search_dec.
       rewrite (rules_dec_raw a b _ false false H).
-      destruct H as (H1 & H2 & H3 & H4 & H5).
+      destruct H as (H1 & H2 & H3 & H4 & H5 & H6).
       unfold Mux.allow_all. rewrite H5.
       destruct (forallb _ (fl (sv_filter sv))); cbn [negb]; [|reflexivity].
       destruct (rules_dec b (sv_rules sv) false false) as [p own vis hm'| |]; cbn [add_vis Mux.result_of]; try reflexivity.
       unfold Mux.allow_all. rewrite H5.
       destruct (forallb _ (fl (pe_filter p))); [|reflexivity].
-      cbn [Mux.dispatch]. now rewrite H3.
+      cbn [Mux.dispatch]. unfold too_large. now rewrite H3, H6.
     - intro q. destruct H as (H1 & H2 & H3 & _). unfold mk_key. now rewrite H1, H2, H3.
   Qed.
 
